@@ -210,7 +210,7 @@ template <class G> struct Monitor {
     std::string cls;
     ObsCounters oc;
     uint64_t callsByKind[KIND_COUNT] = {0};
-    uint64_t calls = 0, wPresent = 0, wAbsent = 0, totExact = 0, totTol = 0, matCells = 0, noopChecks = 0, setPresent = 0, setAbsent = 0, setDescending = 0;
+    uint64_t specialWeights = 0, longHistories = 0, scaleHistories = 0, maxDegreeSeen = 0, calls = 0, wPresent = 0, wAbsent = 0, totExact = 0, totTol = 0, matCells = 0, noopChecks = 0, setPresent = 0, setAbsent = 0, setDescending = 0;
     uint64_t after[G_COUNT] = {0};
     Monitor(Reporter &R, const HistConfig &cfg, std::string cls) : R(R), cfg(cfg), cls(std::move(cls)) {}
 
@@ -225,6 +225,13 @@ template <class G> struct Monitor {
         R.count("total_weight_tolerance_comparisons", totTol);
         R.count("weight_matrix_cells", matCells);
         R.count("noop_exactness_checks", noopChecks);
+        R.count("setEdgeWeight_with_ulp_neighbour_tiny_or_negative_zero", specialWeights);
+        specialWeights = 0;
+        R.count("long_histories_1200_to_2700_calls", longHistories);
+        longHistories = 0;
+        R.count("scale_histories_12_to_70_vertices", scaleHistories);
+        { uint64_t &m1 = R.counter("largest_neighbour_list_seen_max"); m1 = std::max(m1, maxDegreeSeen); }
+        scaleHistories = 0;
         R.count("setEdgeWeight_on_present_edge", setPresent);
         R.count("setEdgeWeight_on_absent_pair", setAbsent);
         R.count("setEdgeWeight_pair_named_in_descending_order", setDescending);
@@ -378,7 +385,23 @@ template <class G> struct Monitor {
             op.i = e.first; op.j = e.second;
         };
         if (take(wAdd)) { op.kind = ADD; pick(-1); op.w = genWeight(r, exact); }
-        else if (take(wSet)) { op.kind = SETW; pick(r.chance(3, 4) ? 1 : 0); op.w = genWeight(r, exact); }
+        else if (take(wSet)) {
+            op.kind = SETW; pick(r.chance(3, 4) ? 1 : 0); op.w = genWeight(r, exact);
+            if (!exact && r.chance(1, 8)) {
+                // a new weight that differs from the current one by one unit in the last place, or is tiny, or is -0.0
+                auto it = s.m.e.find(s.m.key(op.i, op.j));
+                double cur = it == s.m.e.end() ? 1.0 : it->second.w;
+                switch (r.u(6)) {
+                case 0: op.w = std::nextafter(cur, 1e300); break;
+                case 1: op.w = std::nextafter(cur, -1e300); break;
+                case 2: op.w = std::ldexp(1.0, -60); break;
+                case 3: op.w = -std::ldexp(1.0, -1000); break;
+                case 4: op.w = -0.0; break;
+                default: op.w = cur * (1.0 + std::ldexp(1.0, -51)); break;
+                }
+                ++specialWeights;
+            }
+        }
         else if (take(wRem)) { op.kind = REMOVE; pick(1); }
         else if (take(wLoops)) op.kind = LOOPS;
         else if (take(wVertex)) { op.kind = VERTEX; pick(1); if (r.chance(1, 2)) op.i = op.j; }
@@ -400,8 +423,27 @@ template <class G> struct Monitor {
         unsigned style = (sub / 2) % 3;
         unsigned n0 = startN[(sub / 6) % 5];
         unsigned len = 8 + r.u(cfg.maxLen - 7);
-        Subject<G> s(n0);
+        unsigned maxN = cfg.maxN, checkEvery = 1;
         PairPicker pp;
+        bool scale = cfg.scaleEvery && sub % cfg.scaleEvery == 7;
+        if (scale) {
+            static const unsigned bigN[] = {12, 24, 40, 70};
+            n0 = bigN[(sub / cfg.scaleEvery) % 4];
+            maxN = n0 + 2;
+            len = 150 + r.u(n0 * 5);
+            checkEvery = 8;
+            style = 0;
+            pp.hub = (int)r.u(n0);
+            ++scaleHistories;
+        } else if (cfg.scaleEvery && sub % (cfg.scaleEvery * 4) == 11) {
+            len = 1200 + r.u(1500);
+            checkEvery = 16;
+            n0 = 3 + r.u(4);
+            ++longHistories;
+        }
+        Subject<G> s(n0);
+        Op prevOp;
+        bool havePrev = false;
         R.describeCase = [&] {
             return "{\"class\": " + q(cls) + ", \"weights\": " + q(exact ? "exact-dyadic" : "rounding") + ", \"start_size\": " + std::to_string(n0) + ", \"history\": " + s.histJson() +
                    ", \"model_after\": " + q(s.m.str()) + "}";
@@ -413,7 +455,10 @@ template <class G> struct Monitor {
         }
         uint64_t hh = n0;
         for (unsigned step = 0; step < len; ++step) {
-            Op op = gen(r, s, pp, style, step, len, cfg.maxN, exact);
+            Op op = gen(r, s, pp, style, step, len, maxN, exact);
+            if (havePrev && r.chance(1, 12)) op = prevOp; // the same call twice in a row
+            prevOp = op;
+            havePrev = true;
             bool noop = s.isNoop(op) && (op.kind == ADD || op.kind == REMOVE); // re-adding an existing edge / removing an absent one changes nothing
             std::vector<std::vector<VertexIndex>> before;
             if (noop) before = orderedLists(s.g);
@@ -434,11 +479,14 @@ template <class G> struct Monitor {
                     return;
                 }
             }
+            if (checkEvery > 1 && step % checkEvery != 0 && step + 1 != len) continue;
             std::string e = checkAll(s, exact);
             if (!e.empty()) {
                 R.violation(cls + "/" + kindName(op.kind) + "/" + observerOf(e), "after " + op.str() + ": " + e);
                 return;
             }
+            if (scale)
+                for (VertexIndex v = 0; v < s.m.n; ++v) maxDegreeSeen = std::max<uint64_t>(maxDegreeSeen, s.g.getOutNeighbours(v).size());
             uint64_t sh = s.m.hash();
             R.states.insert(sh);
             hh = mix64(hh, sh);
@@ -502,10 +550,15 @@ template <class G> struct Monitor {
     }
 
     // ---- C06 -------------------------------------------------------------------
+    bool wideWeights = false; // pair mode: weights of wildly different magnitudes (the running total rounds, the edge weights do not)
     void randomWalk(Rng &r, Subject<G> &s, unsigned len, unsigned style, unsigned maxN) {
         PairPicker pp;
         for (unsigned step = 0; step < len; ++step) {
             Op op = gen(r, s, pp, style, step, len, maxN, true);
+            if (wideWeights && (op.kind == ADD || op.kind == SETW)) {
+                static const double wide[] = {1e20, -1e20, 3.0, 0.1, 1e-9, -1e15, 7e18, 0.3, 1e300, 2.5e-7, 123456789.125, -0.7};
+                op.w = wide[r.u(12)];
+            }
             s.apply(op);
             ++calls; ++callsByKind[op.kind];
         }
@@ -571,6 +624,8 @@ template <class G> struct Monitor {
         Rng r = caseRng(R.args.seed, hashStr(cls + "pair"), sub);
         static const unsigned startN[] = {0, 1, 2, 3, 5};
         unsigned n0 = startN[sub % 5];
+        wideWeights = sub % 3 == 1;
+        if (wideWeights) R.count("pairs_with_weights_of_wildly_different_magnitude");
         Subject<G> A(n0);
         unsigned lenA = 5 + r.u(50), styleA = r.u(3); // sequenced: argument evaluation order is unspecified
         randomWalk(r, A, lenA, styleA, cfg.maxN);
